@@ -135,10 +135,9 @@ def generate():
     g = guards[0]
     sendq_pop = pop_end(nxt, "self.sendQueue", "RootSlicer.__next__")
     first = g.body[0]
-    if not (isinstance(first, ast.Assign) and U(first.targets[0]) in ("(obj, self.objectSentDeferred)", "obj, self.objectSentDeferred")
-            and isinstance(first.value, ast.Call) and U(first.value.func) == "self.sendQueue.pop" or
-            isinstance(first, ast.Assign) and isinstance(first.value, ast.Call) and U(first.value.func) == "self.sendQueue.popleft"):
-        raise P.Untranslatable("RootSlicer.__next__: dequeue statement changed: " + U(first))
+    if not (isinstance(first, ast.Assign) and isinstance(first.value, ast.Call)
+            and U(first.value.func) in ("self.sendQueue.pop", "self.sendQueue.popleft")):
+        raise P.Untranslatable("RootSlicer.__next__: the guarded block no longer starts with the dequeue: " + U(first))
     if not (isinstance(g.body[-1], ast.Return) and U(g.body[-1].value) == "obj"):
         raise P.Untranslatable("RootSlicer.__next__: the dequeued object is no longer returned")
     if g.orelse:
@@ -217,8 +216,8 @@ def generate():
     inq_push, pc = push_end(sch, "self.inboundDeliveryQueue", "Broker.scheduleCall")
     if U(pc.args[-1]) != "(delivery, ready_deferred)":
         raise P.Untranslatable("Broker.scheduleCall enqueues %s" % U(pc.args[-1]))
-    ssrc = [U(s) for s in strip_doc(sch.body)]
-    if len(ssrc) != 2 or ssrc[1] != "eventually(self.doNextCall)":
+    ssrc = [U(s) for s in strip_doc(sch.body) if not U(s).startswith(("log.", "self.log", "if self.debug"))]
+    if len(ssrc) != 2 or ssrc[0] != U(pc) or ssrc[1] != "eventually(self.doNextCall)":
         raise P.Untranslatable("Broker.scheduleCall changed: %s" % ssrc)
     out.append("Definition inq_push : push_end := %s.   (* Broker.scheduleCall: %s *)" % (inq_push, U(pc)))
 
